@@ -108,8 +108,10 @@ type histRun struct {
 	k8sGen                 int
 
 	clock atomic.Int64
-	done  atomic.Int64
-	stop  atomic.Bool
+
+	stuckHandshakes atomic.Int64
+	done            atomic.Int64
+	stop            atomic.Bool
 
 	mu      sync.Mutex
 	hs      []hsRec
@@ -404,7 +406,12 @@ func (hr *histRun) serve(ln net.Listener, cfg *tls.Config, wg *sync.WaitGroup) {
 			}()
 			c.SetDeadline(time.Now().Add(ioDeadline))
 			tc := tls.Server(c, cfg)
-			if err := tc.Handshake(); err != nil {
+			// every read and write of the handshake is bounded by the deadline above: a handshake call that
+			// has not returned well after it is stuck in something that is not I/O (the certificate callback)
+			stuck := time.AfterFunc(ioDeadline+5*time.Second, func() { hr.stuckHandshakes.Add(1) })
+			err := tc.Handshake()
+			stuck.Stop()
+			if err != nil {
 				hr.mu.Lock()
 				if len(hr.srvErrs) < 20 {
 					hr.srvErrs = append(hr.srvErrs, err.Error())
@@ -728,7 +735,15 @@ func runHistory(h *history, pool *pairPool, isolated bool) *result {
 		hr.stop.Store(true)
 		cliWG.Wait()
 		ln.Close()
-		srvWG.Wait()
+		srvDone := make(chan struct{})
+		go func() { srvWG.Wait(); close(srvDone) }()
+		select {
+		case <-srvDone:
+		case <-time.After(2*ioDeadline + 10*time.Second):
+		}
+		if n := hr.stuckHandshakes.Load(); n > 0 {
+			res.violations = append(res.violations, violation{"server-handshake-never-returns", fmt.Sprintf("%d server-side handshake call(s) had not returned %v after they began although every read and write was bounded by a %v deadline: the certificate callback does not return", n, ioDeadline+5*time.Second, ioDeadline), hr.witness(nil, "teardown")})
+		}
 		if !stopWatcher() && res.inconclusive == "" {
 			res.inconclusive = "harness: certwatcher.Start did not return 20 s after its context was cancelled"
 		}
